@@ -249,7 +249,15 @@ end
 
 /-! ## DDL and the other statements -/
 
-def prPartition (d : Gen.D) (p : List Expr) : P := (prList d p).map fun l => s!"PARTITION ({joinS ", " l})"
+/-- `ASTPartitionExpression._partition_source`: key and value of `k = v` bracketed above the compute level, a dynamic item likewise -/
+def prPartItem (d : Gen.D) (e : Expr) : P :=
+  match e with
+  | .compare o l r => do let a ← (prE d l).map (wrap l 8); let b ← compareOpSrc o; let c ← (prE d r).map (wrap r 8); pure s!"{a} {b} {c}"
+  | e => (prE d e).map (wrap e 8)
+def prPartList (d : Gen.D) : List Expr → Except Err (List String)
+  | [] => pure []
+  | e :: r => do let a ← prPartItem d e; let b ← prPartList d r; pure (a :: b)
+def prPartition (d : Gen.D) (p : List Expr) : P := (prPartList d p).map fun l => s!"PARTITION ({joinS ", " l})"
 
 /-- `ASTColumnTypeExpression.source` (`node.py:1352-1365`) -/
 def prColType (d : Gen.D) (t : ColType) : P :=
